@@ -497,6 +497,10 @@ class FnTranslator:
         g = guards[0]
         if g[0] == 'fail':
             return ctx.exc(env) if ctx.exc else ctx.ret(self.err(g[1]))
+        if g[0] == 'res' and self.cfg.get('res_ctors'):
+            # a result type with several constant error constructors (config res_ctors): each is propagated
+            arms = ' '.join('| %s => %s' % (c, ctx.exc(env) if ctx.exc else ctx.ret(c)) for c in self.cfg['res_ctors'])
+            return '(match %s with Ok %s => %s %s end)' % (g[2], g[1], self.wrap(guards[1:], env, ctx, k), arms)
         if g[0] == 'res':
             return '(match %s with Err err__ => %s | Ok %s => %s end)' % (
                 g[2], ctx.exc(env) if ctx.exc else ctx.ret('(Err err__)'), g[1], self.wrap(guards[1:], env, ctx, k))
@@ -701,6 +705,27 @@ class FnTranslator:
                                   op=s.op, right=s.value)
                 ast.copy_location(value, s)
                 ast.fix_missing_locations(value)
+            if isinstance(s, ast.Assign) and isinstance(target, ast.Tuple) and isinstance(value, ast.Tuple) \
+                    and len(target.elts) == len(value.elts) and all(isinstance(e, ast.Name) for e in target.elts):
+                # a, b = x, y : the right-hand sides are evaluated first (simultaneous assignment)
+                vals, guards = [], []
+                for v in value.elts:
+                    g, t, ty = self.tr(v, env)
+                    if t is None:
+                        refuse('tuple assignment of a symbolic value', s)
+                    guards += g
+                    vals.append((t, ty))
+                tmps = [self.fresh('t') for _ in vals]
+                def kk2(e):
+                    e2 = e
+                    txt_open, txt_close = '', ''
+                    for tmp, (t, ty) in zip(tmps, vals):
+                        txt_open += '(let %s := %s in ' % (tmp, t); txt_close += ')'
+                    for tgt, tmp, (t, ty) in zip(target.elts, tmps, vals):
+                        txt_open += '(let %s := %s in ' % (self.mangle(tgt.id), tmp); txt_close += ')'
+                        e2 = e2.bind(tgt.id, self.mangle(tgt.id), ty)
+                    return txt_open + krest(e2) + txt_close
+                return self.wrap(guards, env, ctx, kk2)
             if isinstance(s, ast.Assign) and isinstance(target, ast.Tuple) and all(isinstance(e, ast.Name) for e in target.elts) \
                     and self.cfg.get('tuple_first'):
                 # a, b, c = mapped_call(..): the model's value is the first component, the others are opaque
